@@ -225,6 +225,7 @@ func checkC07(w *World, r *Report) {
 	if nSw == 0 {
 		r.note("no hand-written escape table found (only the library routine is used)")
 	}
+	checkChainsApplied(w, r)
 }
 
 func objName(o types.Object) string {
@@ -419,4 +420,143 @@ func (w *World) checkFallbackPosition(r *Report, fd *ast.FuncDecl, sw *ast.Switc
 	default:
 		r.ok("R07.4", w.declName(fd), construct, w.pos(sw), "reachable only across the not-found edge of the lookup in Environment.filters", true)
 	}
+}
+
+// checkChainsApplied — R07.5: `x|e|e` escapes twice.  A filter chain is applied item by item; in
+// every function that walks a []FilterChainItem and reads its items, each pass of the loop
+// either leaves the function or goes through the call that applies the item (ApplyFilter, or
+// whatever function the item's name is handed to).  A path round the loop that avoids the
+// call — "this filter directly follows itself, nothing left to do" — drops a filter the
+// template asked for; for escape that is the difference between text that survives one more
+// decoding step and text that does not.
+func checkChainsApplied(w *World, r *Report) {
+	itemT := w.named("FilterChainItem")
+	n := 0
+	for _, fn := range w.pkgFuncs() {
+		// loop headers: the block of the index phi of an IndexAddr over []FilterChainItem whose
+		// element is read
+		type loop struct {
+			header *ssa.BasicBlock
+			elem   *ssa.IndexAddr
+		}
+		var loops []loop
+		instrsOf(fn, func(in ssa.Instruction) {
+			ia, ok := in.(*ssa.IndexAddr)
+			if !ok {
+				return
+			}
+			sl, ok := deref(ia.X.Type()).Underlying().(*types.Slice)
+			if !ok || !types.Identical(sl.Elem(), itemT) {
+				return
+			}
+			ph, ok := ia.Index.(*ssa.Phi)
+			if !ok || ia.Referrers() == nil {
+				// rotated range loops index with phi+1
+				if bo, isBo := ia.Index.(*ssa.BinOp); isBo {
+					if p2, isPhi := bo.X.(*ssa.Phi); isPhi {
+						ph, ok = p2, true
+					}
+				}
+				if !ok {
+					return
+				}
+			}
+			read := false
+			for _, ref := range *ia.Referrers() {
+				switch x := ref.(type) {
+				case *ssa.UnOp:
+					read = true
+				case *ssa.FieldAddr:
+					if x.Referrers() != nil {
+						for _, r2 := range *x.Referrers() {
+							if _, isLoad := r2.(*ssa.UnOp); isLoad {
+								read = true
+							}
+						}
+					}
+				}
+			}
+			if read {
+				loops = append(loops, loop{ph.Block(), ia})
+			}
+		})
+		for _, lp := range loops {
+			// the applying calls: calls that receive a value read from the element
+			fromElem := map[ssa.Value]bool{}
+			var mark func(v ssa.Value, d int)
+			mark = func(v ssa.Value, d int) {
+				if fromElem[v] || d > 6 || v.Referrers() == nil {
+					return
+				}
+				fromElem[v] = true
+				for _, ref := range *v.Referrers() {
+					switch x := ref.(type) {
+					case *ssa.UnOp, *ssa.FieldAddr, *ssa.Field, *ssa.Phi, *ssa.Slice, *ssa.MakeInterface, *ssa.ChangeType:
+						mark(x.(ssa.Value), d+1)
+					case *ssa.Store:
+						if x.Val == v {
+							if al, isAl := x.Addr.(*ssa.Alloc); isAl {
+								mark(al, d+1)
+							}
+						}
+					}
+				}
+			}
+			mark(lp.elem, 0)
+			applyBlocks := map[*ssa.BasicBlock]bool{}
+			var applyPos string
+			instrsOf(fn, func(in ssa.Instruction) {
+				c, ok := in.(ssa.CallInstruction)
+				if !ok {
+					return
+				}
+				if _, isDefer := in.(*ssa.Defer); isDefer {
+					return
+				}
+				cc := c.Common()
+				if f := calleeFunc(c); f != nil && (f.Pkg() == nil || f.Pkg().Path() != twigPath) {
+					return // logging, fmt …
+				}
+				if g := cc.StaticCallee(); g != nil && strings.HasPrefix(g.Name(), "Log") {
+					return
+				}
+				for _, a := range cc.Args {
+					if fromElem[a] && types.Identical(a.Type().Underlying(), types.Typ[types.String]) {
+						applyBlocks[in.Block()] = true
+						applyPos = w.posOf(in.Pos())
+					}
+				}
+			})
+			if len(applyBlocks) == 0 {
+				continue // the chain is only inspected here (DetectFilterChain, debugging)
+			}
+			n++
+			construct := "every item of the filter chain is applied"
+			// a cycle through the header that avoids every applying block
+			seen := map[*ssa.BasicBlock]bool{}
+			var skip bool
+			var dfs func(b *ssa.BasicBlock)
+			dfs = func(b *ssa.BasicBlock) {
+				if skip || seen[b] || applyBlocks[b] {
+					return
+				}
+				seen[b] = true
+				for _, s := range b.Succs {
+					if s == lp.header {
+						skip = true
+						return
+					}
+					dfs(s)
+				}
+			}
+			// start in the block that reads the element (the loop body)
+			dfs(lp.elem.Block())
+			if skip {
+				r.bad("R07.5", ssaName(fn), construct, w.posOf(lp.elem.Pos()), "the loop over the chain can go on to the next item without passing the call that applies this one ("+applyPos+"): a filter written in the template is silently dropped — `v|e|e` no longer escapes twice, so already-escaped text is not escaped again")
+			} else {
+				r.ok("R07.5", ssaName(fn), construct, w.posOf(lp.elem.Pos()), "each pass of the loop applies the item or leaves the function", true)
+			}
+		}
+	}
+	r.floor("loops applying a filter chain", n, 1)
 }
